@@ -290,6 +290,10 @@ AddUnitClass == /\ Editable /\ "libUnits" \notin Names(s.ucs)
                                   !.units = @ \cup {[name |-> "libunit", uclass |-> "libUnits",
                                                      attrs |-> NewIL \cup {<<"SIUnit", TRUEV>>, <<"conversionFactor", "1.0">>}, desc |-> "none"]}]
                 /\ Log(<<"AddUnitClass", "libUnits">>)
+\* a unit class that has no units (yet): an entry like any other - it is written and read back
+AddEmptyUnitClass == /\ Editable /\ "emptyUnits" \notin Names(s.ucs)
+                     /\ s' = [s EXCEPT !.ucs = @ \cup {[name |-> "emptyUnits", attrs |-> NewIL, desc |-> "none"]}]
+                     /\ Log(<<"AddEmptyUnitClass", "emptyUnits">>)
 AddValueClass == /\ Editable /\ "libClass" \notin Names(s.others)
                  /\ s' = [s EXCEPT !.others = @ \cup {[name |-> "libClass", sect |-> "valueClass", desc |-> "none",
                                         attrs |-> NewIL \cup {<<"allowedCharacter", "letters">>, <<"allowedCharacter", "digits">>}]}]
@@ -328,7 +332,7 @@ DoSetDesc == \/ \E e \in s.tags : \E k \in DescKinds : SetDescTag(e, k)
 DoAddValueChild == \E e \in s.tags : \E o \in ValueOpts : AddValueChild(e, o)
 DoAddUnit == \E u \in s.ucs : \E n \in UnitNames, o \in UnitOpts : AddUnit(u, n, o)
 Next == DoAddNode \/ DoAddRooted \/ DoRemoveLeaf \/ DoSetAttr \/ DoSetDesc \/ DoAddValueChild
-        \/ DoAddUnit \/ AddUnitClass \/ AddValueClass \/ Merge
+        \/ DoAddUnit \/ AddUnitClass \/ AddEmptyUnitClass \/ AddValueClass \/ Merge
 Spec == Init /\ [][Next]_vars
 View == <<s, Len(edits)>>
 
